@@ -419,6 +419,15 @@ Proof.
     + intros w0 it0 r0 L0 G0; simpl in *; cases_upd; [destruct G0; discriminate|eapply s_result0; eauto].
 Qed.
 
+Lemma pres_cancel s m s' :
+  Inv s -> Sim s m -> do_cancel s = Some s' -> Inv s' /\ Sim s' m.
+Proof.
+  intros IV S H. unfold do_cancel in H. destruct (st_cancelled s); [discriminate|].
+  inversion H; subst s'; clear H. split.
+  - destruct IV. constructor; try solve [auto_inv].
+  - destruct S. constructor; try solve [auto_inv].
+Qed.
+
 Lemma live_inv s w : live p s w = true ->
   exists it, lookup p w = Some it /\ is_promise (it_kind it) = true /\ it_inner it = false /\
              st_created s w = true /\ st_taken s w = false /\ st_abandoned s w = false.
@@ -585,7 +594,7 @@ Proof.
             (ph = PDrain -> st_pend s = []) ->
             (forall x, ch x = true -> st_chained s x = true) ->
             Inv (mkState ph (st_created s) (upd (st_gor s) w GDone) (upd (st_chan s) w (Some r)) (st_taken s)
-                         (st_abandoned s) (st_pend s) ch)).
+                         (st_abandoned s) (st_pend s) ch (st_cancelled s))).
   { intros ph ch NP NE TOP DR CH. destruct IV. constructor; try solve [auto_inv].
     - intros w0 it0 k L0 K0 C0; simpl in *. destruct (c_batch0 w0 it0 k L0 K0 C0) as [X|X]; auto.
       right. destruct X as [X|X]; [left|right]; simpl; auto. cases_upd; congruence.
@@ -597,7 +606,7 @@ Proof.
   assert (SIM1 : forall ph ch,
             (ph = PTop \/ ph = PFlush \/ ph = PDrain) ->
             Sim (mkState ph (st_created s) (upd (st_gor s) w GDone) (upd (st_chan s) w (Some r)) (st_taken s)
-                         (st_abandoned s) (st_pend s) ch)
+                         (st_abandoned s) (st_pend s) ch (st_cancelled s))
                 (mkMon (m_created m) (m_unflushed m) (m_round m) (m_call m) (upd (m_dlv m) w (Some r)) (m_taken m) (m_abandoned m))).
   { intros ph ch PHH.
     assert (MONO : forall q x, m_dlv m q = Some x -> upd (m_dlv m) w (Some r) q = Some x).
@@ -977,6 +986,7 @@ Proof.
   - eapply pres_idle_exit; eauto.
   - eapply pres_end; eauto.
   - exists m. split; auto. eapply pres_exit; eauto.
+  - exists m. split; auto. eapply pres_cancel; eauto.
 Qed.
 
 Lemma run_preserves fx tr : forall s m s',
